@@ -55,7 +55,7 @@ func oracleCase(stream string, ops [][]string) (verdict string) {
 			}
 			r := parseReq(f[1:])
 			c, sp := evalFilters(s.built, r), specDecision(s, r)
-			if v := judge(s, r, c, sp, f); v != "" {
+			if v := judge(s, r, c, sp, f, caseReqs(ops)); v != "" {
 				return v
 			}
 		case "build":
@@ -76,44 +76,101 @@ func oracleCase(stream string, ops [][]string) (verdict string) {
 	return "OK"
 }
 
-func judge(s *sut, r *request, compiled, spec bool, f []string) string {
+func caseReqs(ops [][]string) []*request {
+	var out []*request
+	for _, f := range ops {
+		if f[0] == "req" {
+			out = append(out, parseReq(f[1:]))
+		}
+	}
+	return out
+}
+
+func judge(s *sut, r *request, compiled, spec bool, f []string, all []*request) string {
 	if compiled == spec {
 		return ""
 	}
+	// no waiver: the statement (incl. its clause for rules that cannot be expressed, spec.go) fixes the
+	// decision on every chain
 	kind := "http"
 	if s.forTCP {
 		kind = "tcp"
-		if !compiled && spec && s.usesHTTPOnly() {
-			return "" // fail-closed: HTTP-only fields on a TCP chain may only make the result less permissive
-		}
 	}
 	clause := "more-permissive"
 	if !compiled {
 		clause = "more-restrictive"
-		if s.untranslatable() {
-			return "" // a rule that cannot be expressed may only make the result less permissive
-		}
 	}
-	return fmt.Sprintf("FAIL %s:%s class=%s compiled=%s spec=%s %s", kind, clause, classify(s, r, compiled), decTok(compiled), decTok(spec), strings.Join(f, " "))
+	return fmt.Sprintf("FAIL %s:%s class=%s compiled=%s spec=%s %s", kind, clause, classify(s, all), decTok(compiled), decTok(spec), strings.Join(f, " "))
 }
 
-// classify names the minimal input class of a disagreement (used as the finding fingerprint).
-func classify(s *sut, r *request, compiled bool) string {
-	// today's namespace matcher is the unanchored regex `.*/ns/<glob with .*>/.*`: if reading
-	// namespace values that way explains the generated decision, the disagreement belongs to that class
-	looseNamespace = true
-	loose := specDecision(s, r)
-	looseNamespace = false
-	if loose == compiled {
-		return "namespace-regex-spans-slash"
+// classify names the minimal input class of a disagreement (used as the finding fingerprint). A known
+// class is reported only when reading ONE value of the policies the way today's generated matcher
+// behaves makes the statement agree with the generated filters on EVERY request of the case; any
+// other disagreement (or one a single such value does not fully explain) is "other".
+func classify(s *sut, all []*request) string {
+	explains := func() bool {
+		for _, q := range all {
+			if specDecision(s, q) != evalFilters(s.built, q) {
+				return false
+			}
+		}
+		return true
 	}
-	// a `prefix*` requestPrincipals value is split at ITS last '/' into an exact issuer and a subject
-	// prefix, so a prefix that ends inside the issuer (e.g. "https://issuer.exa*") matches nothing
-	looseJWTPrefix = true
-	loose = specDecision(s, r)
-	looseJWTPrefix = false
-	if loose == compiled {
-		return "request-principal-prefix-inside-issuer"
+	nsVals, rpVals := map[string]bool{}, map[string]bool{}
+	for i := range s.policies {
+		for _, rule := range s.policies[i].Spec.Rules {
+			for _, f := range rule.GetFrom() {
+				if src := f.GetSource(); src != nil {
+					for _, v := range append(append([]string{}, src.Namespaces...), src.NotNamespaces...) {
+						nsVals[v] = true
+					}
+					for _, v := range append(append([]string{}, src.RequestPrincipals...), src.NotRequestPrincipals...) {
+						rpVals[v] = true
+					}
+				}
+			}
+			for _, c := range rule.GetWhen() {
+				for _, v := range append(append([]string{}, c.Values...), c.NotValues...) {
+					switch c.Key {
+					case "source.namespace":
+						nsVals[v] = true
+					case "request.auth.principal":
+						rpVals[v] = true
+					}
+				}
+			}
+		}
+	}
+	// today's namespace matcher is the unanchored regex `.*/ns/<glob with .*>/.*`
+	for v := range nsVals {
+		if !strings.Contains(v, "*") {
+			continue
+		}
+		looseNamespace, looseValue = true, v
+		ok := explains()
+		looseNamespace, looseValue = false, ""
+		if ok {
+			return "namespace-regex-spans-slash"
+		}
+	}
+	// a `prefix*` requestPrincipals value is split at ITS last '/' into an exact issuer and a subject prefix
+	for v := range rpVals {
+		if strings.HasPrefix(v, "*") || !strings.HasSuffix(v, "*") || v == "*" {
+			continue
+		}
+		looseJWTPrefix, looseValue = true, v
+		ok := explains()
+		looseJWTPrefix, looseValue = false, ""
+		if ok {
+			return "request-principal-prefix-inside-issuer"
+		}
+	}
+	// request.headers[..]: "*" compiles to present_match, which an empty header value satisfies
+	looseHeaderPresence, looseValue = true, "*"
+	ok := explains()
+	looseHeaderPresence, looseValue = false, ""
+	if ok {
+		return "header-presence-matches-empty-value"
 	}
 	return "other"
 }
@@ -146,12 +203,16 @@ func derive(s *sut, ops [][]string) string {
 				kind = "tcp"
 			}
 			s.apply([]string{"build", kind, auth})
+			var lines [][]string
+			var reqs []*request
 			for i := 0; i < 400; i++ {
-				line := g.genReq(!tcp)
-				f := strings.Fields(line)
-				r := parseReq(f[1:])
+				f := strings.Fields(g.genReq(!tcp))
+				lines = append(lines, f)
+				reqs = append(reqs, parseReq(f[1:]))
+			}
+			for i, r := range reqs {
 				c, sp := evalFilters(s.built, r), specDecision(s, r)
-				if v := judge(s, r, c, sp, f); v != "" {
+				if v := judge(s, r, c, sp, lines[i], reqs); v != "" {
 					return v + " build=" + kind
 				}
 			}
